@@ -70,9 +70,18 @@
      vacuous quantification (`TickedQ`, Boolean `ckTickedQ`; a branch with quantifier nodes has a constant).  Per logic
      (Ptx/Gen/ObH_<L>.lean): `<L>_search_side_fo`, `<L>_completed_is_saturated_fo`, `<L>_search_completed_countermodel_fo`.
      Only `IdentityIndiscernability` remains outside the model.
-   * (3) PROGRESS: `target_legal_table` (rows passing the decidable totality condition `rowOKB`; `templatesOKB L` for all 57
-     logics) and `search_progress`: in every reachable state every enabled target of the closure group, an access rule or a
-     non-quantifier table rule can be applied.  Exempt: quantifier rows (freshness of `nextConst` not proved).
+   * SIXTH INCREMENT.  `cpl.IdentityIndiscernability` is inside the model (`RuleId.ident`, `identTargets`: identity node × predication
+     node of `PredNodes` at the same world, both directions through the calculus' own `identAdd`, skipping self-identities and
+     nodes already on the branch AT THAT WORLD; `inv_apply_ident`, `target_legal_ident`); every theorem (`inv_reachable`,
+     `invq_reachable`, `search_run_deriv`, progress, termination) holds for the extended model, and nothing of the library's search
+     layer remains outside it.  (2-ALL) `completed_is_saturated_all` / `search_completed_saturated_all`: NO scope hypothesis —
+     `identMissing_nil`: the `identMissing` clause of `unsaturated` follows from "no target" (predication nodes are never ticked
+     and never released).
+   * (3) PROGRESS without exemption: `target_legal_table` (`rowOKB`), `target_legal_quant` (`rowQOKB`; `nextConst_fresh`:
+     the model's `Branch.new_constant()` is strictly above every constant of the branch; well-formed quantified sentences),
+     `target_legal_ident`, `search_progress`.  `templatesOKB`, `templatesQOKB`, `closureMonoB` hold for all 57 logics.
+   * NOT done: `search_terminates_prop` for logics with access rules (`C03_terminates_partial` itself excludes frame steps; a
+     measure bounding them is missing).
    Examples use a hand-built logic (`miniS`), so a broken generated logic cannot break this file.
 -/
 import Ptx.Proofs.SearchInv
@@ -208,6 +217,31 @@ theorem search_completed_saturated_fo (L : LogicData) (hside : searchSideB L = t
   ⟨reach_deriv hr, List.mem_of_getElem? hb,
    completed_is_saturated_fo L hside hqt s (reach_inv' hr).1 (invq_reachable L arg s hr) bi b hb hopen htq hnone hq
      hlim hclim hcl hident⟩
+
+/-- (2-ALL) completed ⇒ saturated with NO scope hypothesis: the identity rule (`cpl.IdentityIndiscernability`, `PredNodes`, the
+    world-indexed "already on the branch?" test) is inside the model, so the `identMissing` clause of `unsaturated` follows from
+    "no rule has a target" like every other clause -/
+theorem completed_is_saturated_all (L : LogicData) (hside : searchSideB L = true) (hqt : quantTicksB L = true)
+    (s : SState) (hinv : Inv L s) (hinvq : InvQ L s) (bi : Nat) (b : Branch) (hb : s.tab[bi]? = some b) (hopen : b.closed = false)
+    (htq : TickedQ L b) (hnone : ∀ r : RuleId, targets L s r bi = [])
+    (hq : b.hasQuit = false) (hlim : exceeded s.maxWorlds b = false)
+    (hclim : ∀ w, constExceeded s.maxConsts b w = false)
+    (hcl : b.constList ≠ [] ∨ ∀ sn d w r whole l0, Node.sent sn d w ∈ b.nodes → L.ruleFor sn d = some (r, whole, l0) →
+      r.witness ≠ .newConst ∧ r.witness ≠ .eachConst) : L.saturatedB b = true :=
+  completed_is_saturated_fo L hside hqt s hinv hinvq bi b hb hopen htq hnone hq hlim hclim hcl
+    (identMissing_of_no_targets hinv hb hopen hnone)
+
+/-- (1) + (2-ALL) + (3'): EVERY reachable state, every logic passing the side conditions, every kind of branch -/
+theorem search_completed_saturated_all (L : LogicData) (hside : searchSideB L = true) (hqt : quantTicksB L = true)
+    (arg : Argument) (s : SState) (hr : Reach L arg s) (bi : Nat) (b : Branch) (hb : s.tab[bi]? = some b)
+    (hopen : b.closed = false) (htq : TickedQ L b) (hnone : ∀ r : RuleId, targets L s r bi = [])
+    (hq : b.hasQuit = false) (hlim : exceeded s.maxWorlds b = false)
+    (hclim : ∀ w, constExceeded s.maxConsts b w = false)
+    (hcl : b.constList ≠ [] ∨ ∀ sn d w r whole l0, Node.sent sn d w ∈ b.nodes → L.ruleFor sn d = some (r, whole, l0) →
+      r.witness ≠ .newConst ∧ r.witness ≠ .eachConst) :
+    Deriv L (trunk L arg) s.tab ∧ b ∈ s.tab ∧ L.saturatedB b = true :=
+  ⟨reach_deriv hr, List.mem_of_getElem? hb,
+   completed_is_saturated_all L hside hqt s (reach_inv' hr).1 (reach_inv' hr).2 bi b hb hopen htq hnone hq hlim hclim hcl⟩
 
 /-- `TickedQ` from its Boolean form -/
 theorem tickedQ_of_B (L : LogicData) (b : Branch) (h : ckTickedQ L b = true) : TickedQ L b := by
@@ -381,12 +415,28 @@ theorem target_legal_table (L : LogicData) (s : SState) (hinv : Inv L s) (bi : N
     ∃ t', applyStep L s.tab st = some t' :=
   (Ptx.Search.target_legal_table hinv hrow hm).2
 
-/-- (3) PROGRESS: in every reachable state every enabled target of the closure group, of an access rule, or of a table rule
-    whose row passes `rowOKB` can be applied (`stepEv … = some _`): the search model never offers an illegal step.  (Quantifier
-    rows are exempt: their targets need the freshness of `nextConst`, not proved here.) -/
+/-- (3-Q) targets of new-constant / each-constant rules are legal: `nextConst` is FRESH (`nextConst_fresh`: strictly above every
+    constant of the branch in the order of constants), the row passes `rowQOKB` (`templatesQOKB L` for the whole logic), and the
+    quantified sentences on the branch are well formed (`quantOK`, a property of the input sentences) -/
+theorem target_legal_quant (L : LogicData) (s : SState) (hinv : Inv L s) (bi : Nat) (k : RuleKey)
+    (hrow : ∀ rl, L.rule? k = some rl → rowQOKB k rl = true)
+    (hqok : ∀ b, s.tab[bi]? = some b → ∀ sn d w, Node.sent sn d w ∈ b.nodes → ∀ sh ng whole,
+      sn.decomp = some (sh, ng, whole) → whole.quantOK L = true)
+    (st : Step) (hm : st ∈ targets L s (.table k) bi) : ∃ t', applyStep L s.tab st = some t' :=
+  (Ptx.Search.target_legal_quant hinv hrow hqok hm).2
+
+/-- freshness of the witness constant of the model's new-constant targets -/
+theorem search_new_constant_fresh (b : Branch) : b.consts.contains (nextConst b) = false := nextConst_fresh b
+
+/-- (3) PROGRESS, no exemption: in every reachable state every enabled target — closure group, access rules, identity rule,
+    table rules of every kind — can be applied (`stepEv … = some _`), provided the rule's row passes the decidable totality
+    condition (`rowOKB`, or `rowQOKB` for constant-witness rows together with well-formed quantified sentences on the branch) -/
 theorem search_progress (L : LogicData) (hmono : closureMonoB L = true) (arg : Argument) (s : SState) (hr : Reach L arg s)
     (r : RuleId) (st : Step) (hleg : Ev.legal L s (.apply r st))
-    (hrows : ∀ k, r = .table k → ∀ rl, L.rule? k = some rl → rowOKB L k rl = true) :
+    (hrows : ∀ k, r = .table k → (∀ rl, L.rule? k = some rl → rowOKB L k rl = true) ∨
+      ((∀ rl, L.rule? k = some rl → rowQOKB k rl = true) ∧
+        ∀ b, s.tab[st.branch]? = some b → ∀ sn d w, Node.sent sn d w ∈ b.nodes → ∀ sh ng whole,
+          sn.decomp = some (sh, ng, whole) → whole.quantOK L = true)) :
     ∃ s', stepEv L s (.apply r st) = some s' :=
   progress_apply hmono (inv_reachable L arg s hr) hleg.2 hrows
 
@@ -407,7 +457,7 @@ theorem ticked_not_target (L : LogicData) (s : SState) (hinv : Inv L s) (bi : Na
 
 def miniS : LogicData :=
   { (default : LogicData) with
-    name := "miniS", modal := true, quantified := true, frameRules := ["Reflexive"],
+    name := "miniS", modal := true, quantified := true, frameRules := ["Reflexive"], closesSelfIdNeg := true,
     rules := [(⟨.op1 .neg, true, none⟩, ⟨"DoubleNegation", true, .none, [[.node ⟨.lhs, none, false⟩]]⟩),
               (⟨.op2 .conj, false, none⟩, ⟨"Conjunction", true, .none, [[.node ⟨.lhs, none, false⟩, .node ⟨.rhs, none, false⟩]]⟩),
               (⟨.op2 .disj, false, none⟩, ⟨"Disjunction", true, .none, [[.node ⟨.lhs, none, false⟩], [.node ⟨.rhs, none, false⟩]]⟩),
@@ -418,7 +468,7 @@ def miniS : LogicData :=
     closure := [([], false), ([⟨false, none⟩], false), ([⟨true, none⟩], false), ([⟨false, none⟩, ⟨true, none⟩], true)] }
 
 example : searchSideB miniS = true := by decide
-example : closureMonoB miniS = true ∧ templatesOKB miniS = true := by decide
+example : closureMonoB miniS = true ∧ templatesOKB miniS = true ∧ templatesQOKB miniS = true := by decide
 
 /-- trunk `¬¬a ∧ □b` at world 0; Conjunction, DoubleNegation, Reflexive, Necessity applied (each an enabled target) -/
 def exTrunk : List Node := [.sent (.op2 .conj (.op1 .neg (.op1 .neg (.atom 0 0))) (.op1 .nec (.atom 1 0))) none (some 0)]
@@ -550,6 +600,22 @@ example : InvQ miniS exState3 := by
   have h0 : InvQ miniS (SState.init miniS exTrunk3) := invq_init miniS exTrunk3
   have hi0 : Inv miniS (SState.init miniS exTrunk3) := inv_check_sound miniS _ (by decide)
   exact invq_check_sound miniS exState3 (by decide)
+
+/-! non-vacuity with identity: `a = b`, `Fa` — IdentityIndiscernability adds `Fb` (and nothing else: `b = b` is a self-identity,
+    `a = a` likewise); then no rule has a target and the branch is saturated WITHOUT any scope hypothesis -/
+def exTrunk4 : List Node :=
+  [.sent (.pred Pred.identity [.const 0 0, .const 1 0]) none (some 0),
+   .sent (.pred ⟨0, 0, 1⟩ [.const 0 0]) none (some 0)]
+def exEvs4 : List Ev :=
+  [.apply .ident (.ident 0 0 1), .apply (.frame .reflexive) (.frame 0 .reflexive 0 0 0)]
+def exState4 : SState := (runLegal miniS (SState.init miniS exTrunk4) exEvs4).getD default
+def exBranch4 : Branch := (exState4.tab[0]?).getD default
+example : (runLegal miniS (SState.init miniS exTrunk4) exEvs4).isSome = true ∧ exBranch4.nodes.length = 4 ∧
+    (targets miniS (SState.init miniS exTrunk4) .ident 0).length = 1 := by decide
+example : miniS.saturatedB exBranch4 = true :=
+  completed_is_saturated_all miniS (by decide) (by decide) exState4 (inv_check_sound miniS _ (by decide))
+    (invq_check_sound miniS _ (by decide)) 0 exBranch4 (by decide) (by decide) (tickedQ_of_B miniS _ (by decide))
+    (noTargets_of_B (by decide)) (by decide) (by decide) (constWithin_of_B (by decide)) (Or.inl (by decide))
 
 /-- the world-limit hypothesis is not idle: a state beyond the limit in which nothing has a target, no quit flag, and the
     branch is NOT saturated (Reflexive stops at the limit without a flag — known finding k2) -/
